@@ -28,6 +28,9 @@ MUTATORS = {"fill", "fillnumpy", "fillsparksql", "specialize", "register", "toJs
 # toJson / zero / copy / children have contracts of their own; ed / ing / build are constructors
 
 
+DUNDER_READS = ("__hash__", "__repr__", "__str__")  # named by the property: "==, hash, repr and all read accessors"
+
+
 def tasks_for(prop, tier):
     if prop != "C06":
         return []
@@ -53,7 +56,7 @@ def run_task(P, task, prop, tier, out):
     ci = P.classes[K]
     skipped = []
     for name, fi in sorted(ci.methods.items()):
-        if name.startswith("_") or name in MUTATORS or any(s in name for s in SKIP_SUBSTR) or fi.is_static or getattr(fi, "is_setter", False):
+        if (name.startswith("_") and name not in DUNDER_READS) or name in MUTATORS or any(s in name for s in SKIP_SUBSTR) or fi.is_static or getattr(fi, "is_setter", False):
             continue
         a = fi.node.args
         params = [p.arg for p in a.posonlyargs + a.args][1:]
